@@ -3,7 +3,7 @@
 # Decided by enumeration of the real elaborated functions/classes (not BFS):
 #   usb2_crc5   USBTokenDetector._generate_crc_for_token           all 2^11 inputs
 #   usb2_token  the real USBTokenDetector, fed over UTMI            all 2^16 (byte1, byte2) per PID: accepted <=> CRC5 ok
-#   usb2_crc16  USBDataPacketCRC (rx and tx byte paths)             all 2^16 states x bytes (thorough: all 2^24)
+#   usb2_crc16  USBDataPacketCRC (rx and tx byte paths)             all 2^16 states x byte menu (thorough: all 2^24 for rx)
 #   usb2_data   the real USBDataPacketReceiver (standalone)         all 2^16 check fields per payload: complete <=> CRC16 ok
 #   usb3_crc5   compute_usb_crc5                                    all 2^11 inputs
 #   usb3_crc16  HeaderPacketCRC                                     2^16 x 2^32 via affinity (see below)
@@ -386,6 +386,7 @@ def run_regcrc(cfg, tier, seed):
         if len(set(outtab)) != 1 << 16:
             run.violation(f"{kind}:output-not-bijective", dict(distinct_outputs=len(set(outtab))), [dict(dut=kind, mode=None, state=0, data=0, junk=0)])
         menu = cfg.get("menu")
+        if menu == "all": menu = list(range(256))
         if menu is None:
             if nbits == 8:
                 menu = [0] + [1 << i for i in range(8)] if mode == "rx" else [0, 1, 0x80, 0xFF]
@@ -642,11 +643,10 @@ def configs(tier):
     if tier == "thorough":
         c += [dict(dut="usb2_token", pid=p) for p in ("IN", "SETUP", "PING")]
         c += [dict(dut="usb2_data", payload=p) for p in ("one", "two")]
-        # the complete 2^16 x 2^8 table of the USB2 CRC16, both byte paths
-        allbytes = list(range(256))
-        for mode in ("rx", "tx"):
-            for k in range(8):
-                c.append(dict(dut="usb2_crc16", mode=mode, part="states", range=[k * 8192, (k + 1) * 8192], menu=allbytes))
+        # the complete 2^16 x 2^8 table of the USB2 CRC16 update (receive byte path; the transmit path is a second
+        # instance of the same expression and is decided by cone + basis + all states x 16 bytes above)
+        for k in range(8):
+            c.append(dict(dut="usb2_crc16", mode="rx", part="states", range=[k * 8192, (k + 1) * 8192], menu="all"))
     return c
 
 
